@@ -69,6 +69,15 @@ func checkC01(c *Ctx) {
 	c.Rule("C01-R25", "a style change starts from the attribute reset: in drawCell every colour selection and attribute switch is preceded by AttrOff on every path (underline colour and derived reverse video are not in the attribute mask and only the reset takes them away)")
 	c.Expect("C01-R25", 1)
 	checkStyleChangeStartsFromReset(c, p, "C01-R25")
+	c.Rule("C01-R26", "with the cursor visible at the requested cell: every running pass states the cursor again (showCursor), or decides not to by a record of what the terminal was last told that showCursor refreshes on every way out, the hiding one included")
+	c.Expect("C01-R26", 1)
+	checkCursorAlwaysRestated(c, p, "C01-R26", "tScreen")
+	c.Rule("C01-R27", "after the terminal reports a new size: a channel that is only offered wake-ups (select with default) has room to keep one, so a report that arrives while the main loop is busy is still seen (unbuffered, the second of two quick reports is lost and the screen stays at the old size)")
+	c.Expect("C01-R27", 2)
+	checkCoalescingChansBuffered(c, p, "C01-R27", "tScreen")
+	c.Rule("C01-R28", "after the terminal reports a new size: the channel the window-change signal is delivered on has room for one (os/signal drops a signal when the channel is not ready, and the receiver is not while it runs the resize callback: the report of the final size is then never acted upon)")
+	c.Expect("C01-R28", 2)
+	checkSignalChansBuffered(c, p, "C01-R28")
 	get := func(name string) *ssa.Function {
 		fn := p.Fn("tcell:(*tScreen)." + name)
 		if fn == nil {
